@@ -15,6 +15,7 @@ one() { # prop
     if [[ "$f" == *.sh ]]; then name=$f; patch=/verif/$f; else
       name=${f%/}; patch=/verif/${f}patch.diff; [ -f /verif/${f}patch.rebased.diff ] && patch=/verif/${f}patch.rebased.diff
       if grep -q '"confirmed": false' /verif/${f}meta.json 2>/dev/null; then echo "SKIP     $name (not confirmed on the current tree)"; continue; fi
+      if grep -q '"outside_scope": true' /verif/${f}meta.json 2>/dev/null; then echo "LIMIT    $name (outside the simulated surface, see its meta.json)"; continue; fi
     fi
     local D=$(mktemp -d /tmp/regr.XXXXXX)
     git -C /repo worktree add -q --detach $D/repo HEAD
@@ -23,6 +24,7 @@ one() { # prop
     if [ $ok = 0 ]; then echo "NOAPPLY  $name"; else
       # a change that only shows at thorough-tier run counts says so in its script: "# runs: N"
       local runs=""; [[ "$patch" == *.sh ]] && runs=$(grep -o '^# runs: [0-9]*' $patch | cut -d' ' -f3)
+      [[ "$patch" != *.sh ]] && runs=$(grep -o '"regress_runs": [0-9]*' /verif/${f}meta.json 2>/dev/null | grep -o '[0-9]*$')
       VERIF_REPO=$D/repo ./bin/vsim check $p --tier quick ${runs:+--runs $runs} >$D/log 2>&1; rc=$?
       case $rc in
         1) echo "caught   $name  $(grep -a -o 'rule=[^ ]* key=[^ ]*' $D/log | sort -u | head -3 | tr '\n' ' ')";;
